@@ -90,14 +90,14 @@ theorem highest_loop {T : Type} [Inhabited T] (mu : T → Py.M (X Rat)) (terms :
     intro σ
     -- the step with the degree `d` that the `try` leaves in the record
     have step : ∀ d : X Rat,
-        match highestLoop mu rest (if better σ.highest d then some (t, d) else σ.highest) with
+        match highestLoop mu rest (if better σ.highest d then some (t, X.nanToNum01 d) else σ.highest) with
         | .error err =>
           ((if (σ.highest.isNone && (X.lt (.fin 0) d)) then .ok true else (if σ.highest.isSome then ((Py.deref σ.highest >>= fun h => .ok h.2) >>= fun v2 => .ok (X.lt v2 d)) else .ok false)) >>= fun c =>
-            if c then Variable_highest_membership.loop1 mu terms rest { σ with term_ := t, degree := d, highest := some (t, d) }
+            if c then Variable_highest_membership.loop1 mu terms rest { σ with term_ := t, degree := d, highest := some (t, X.nanToNum01 d) }
             else Variable_highest_membership.loop1 mu terms rest { σ with term_ := t, degree := d }) = .error err
         | .ok r => ∃ σ',
           ((if (σ.highest.isNone && (X.lt (.fin 0) d)) then .ok true else (if σ.highest.isSome then ((Py.deref σ.highest >>= fun h => .ok h.2) >>= fun v2 => .ok (X.lt v2 d)) else .ok false)) >>= fun c =>
-            if c then Variable_highest_membership.loop1 mu terms rest { σ with term_ := t, degree := d, highest := some (t, d) }
+            if c then Variable_highest_membership.loop1 mu terms rest { σ with term_ := t, degree := d, highest := some (t, X.nanToNum01 d) }
             else Variable_highest_membership.loop1 mu terms rest { σ with term_ := t, degree := d }) = .ok σ' ∧ σ'.highest = r := by
       intro d
       rw [highest_cond]
@@ -105,7 +105,7 @@ theorem highest_loop {T : Type} [Inhabited T] (mu : T → Py.M (X Rat)) (terms :
       · simp only [Bool.false_eq_true, if_false, bind, Except.bind]
         exact ih { σ with term_ := t, degree := d }
       · simp only [if_true, bind, Except.bind]
-        exact ih { σ with term_ := t, degree := d, highest := some (t, d) }
+        exact ih { σ with term_ := t, degree := d, highest := some (t, X.nanToNum01 d) }
     simp only [highestLoop, Variable_highest_membership.loop1, degreeOf]
     cases hm : mu t with
     | error err =>
@@ -145,8 +145,8 @@ theorem fuzzify_loop {T : Type} [Inhabited T] (mu : T → Py.M (X Rat)) (fv : T 
     cases hm : mu t with
     | error err => rfl
     | ok d =>
-      exact ih { σ with index := i, term_ := t, activated_term := (t, d),
-                        fuzzy_value := σ.fuzzy_value ++ fv (t, d) (decide (i > 0)) }
+      exact ih { σ with index := i, term_ := t, activated_term := (t, X.nanToNum01 d),
+                        fuzzy_value := σ.fuzzy_value ++ fv (t, X.nanToNum01 d) (decide (i > 0)) }
 
 theorem code_fuzzify {T : Type} [Inhabited T] (mu : T → Py.M (X Rat)) (fv : T × X Rat → Bool → String) (terms : List T) :
     match fuzzify mu fv terms with
